@@ -109,7 +109,7 @@ def refOkB (hp : Heap) : Val → Bool
   | _ => false
 
 def flatFeatB (K : Consts) (ts : TypeSystem) (c : Cas) (ci : Nat) (hp : Heap) (isAnn : Bool) (o : Obj) (f : Feature) : Bool :=
-  decide (f.reserved = false) && decide (f.name ≠ "xmiID") && decide (f.name ≠ "type") && decide (f.name ≠ "self") &&
+  decide (ResOk f) && decide (f.name ≠ "xmiID") && decide (f.name ≠ "type") && decide (f.name ≠ "self") &&
   decide (f.name ≠ ID) &&
   decide (isPrimitiveArray K f.range = false) && decide (isPrimitiveList K f.range = false) &&
   decide (f.range ≠ FS_ARRAY) && decide (f.range ≠ FS_LIST) &&
